@@ -12,6 +12,8 @@
      C05_no_step_reports_missing   no step of a reachable state appends CMissing
      C05_get_result_shape          a KGet that is past its lookup returns only CBytes results,
                                    or the I/O error CErr when the blob path is obstructed
+     C05_range_result_shape        the same for a KGetRange, whose retry may also answer
+                                   InvalidRange (CInvalid) from the current item
      C05_retry_is_one_round        the retry is a single round: GReread -> GOpenL -> finish,
                                    and the GOpenL step always finishes, with the content (or
                                    with CErr when the path of the current item is obstructed)
@@ -55,26 +57,27 @@ Section Reads.
   Qed.
 
   (* the step of a reader parked at GOpenL: it releases the shared lock and returns the
-     content of the CURRENT item of the key (CErr if the path of that item is obstructed) *)
-  Theorem C05_retry_is_one_round g t ts k it : Reach g ->
-    tget (g_thr g) t = Some ts -> t_pc ts = GOpenL k it ->
+     content of the CURRENT item of the key -- the whole blob for a get, the requested slice of
+     it for a get_range: [read_result md it c] -- (CErr if the path of that item is obstructed) *)
+  Theorem C05_retry_is_one_round g t ts k it md : Reach g ->
+    tget (g_thr g) t = Some ts -> t_pc ts = GOpenL k it md ->
     exists c g', step g t = Some g' /\
       sm_get cmp (km (g_idx g)) k = Some it /\
       sm_get lex_cmp (g_cas g) (ihash it) = Some c /\ H c = ihash it /\ len c = isize it /\
       tget (g_thr g') t =
         Some (mkT (t_calls ts) Idle
-                  (t_res ts ++ [if bad (ihash it) then CErr else CBytes (Some c)])) /\
+                  (t_res ts ++ [if bad (ihash it) then CErr else read_result md it c])) /\
       ~ In t (g_R g').
   Proof using cmp_refl cmp_eq cmp_antisym cmp_trans thr0_nodup cas0_sorted cas0_named NoCollideC.
     intros R Ht Hpc.
     destruct (C05_retry_sees_current H cmp cmp_refl cmp_eq cmp_antisym cmp_trans nops bad ckbad thr0
-                thr0_nodup cas0 cas0_sorted cas0_named NoCollideC g t ts k it R Ht Hpc)
+                thr0_nodup cas0 cas0_sorted cas0_named NoCollideC g t ts k it md R Ht Hpc)
       as (_ & _ & Gk & c & Gc & Hh & Hl).
     exists c.
     assert (St : exists g', step g t = Some g' /\
                    g' = finish (mkC (g_idx g) (g_bykey g) (g_byhash g) (g_cas g) (g_nextv g) (g_I g)
                                     (g_S g) (filter (fun u => negb (Nat.eqb u t)) (g_R g)) (g_thr g))
-                               t ts (if bad (ihash it) then CErr else CBytes (Some c))).
+                               t ts (if bad (ihash it) then CErr else read_result md it c)).
     { unfold cstep. rewrite Ht, Hpc. cbn zeta. rewrite Gc.
       destruct (bad (ihash it)); eexists; split; reflexivity. }
     destruct St as (g' & St & ->). eexists. split; [exact St|].
@@ -83,17 +86,18 @@ Section Reads.
     intros I. apply filter_In in I. destruct I as [_ I]. rewrite Nat.eqb_refl in I. discriminate.
   Qed.
 
-  (* results produced by the read pcs of a KGet (size_only = false) are CBytes results or CErr *)
+  (* results produced by the read pcs of a KGet (mode MFull) are CBytes results or CErr *)
   Theorem C05_get_result_shape g t ts g' ts' r : Reach g ->
     tget (g_thr g) t = Some ts -> step g t = Some g' -> tget (g_thr g') t = Some ts' ->
     t_res ts' = t_res ts ++ [r] ->
-    (exists k it, t_pc ts = GOpen k it \/ t_pc ts = GReread k it \/ t_pc ts = GOpenL k it) ->
+    (exists k it, t_pc ts = GOpen k it MFull \/ t_pc ts = GReread k it MFull \/
+                  t_pc ts = GOpenL k it MFull) ->
     (exists o, r = CBytes o) \/ r = CErr.
   Proof using cmp_refl cmp_eq cmp_antisym cmp_trans thr0_nodup cas0_sorted cas0_named NoCollideC.
     intros R Ht St Ht' Hres (k & it & Hp).
     pose proof (C05_no_step_reports_missing g t ts g' ts' R Ht St Ht') as NM.
     revert St. unfold cstep. rewrite Ht.
-    destruct Hp as [Hp|[Hp|Hp]]; rewrite Hp;
+    destruct Hp as [Hp|[Hp|Hp]]; rewrite Hp; cbn [pre_open read_result absent_result];
       repeat (match goal with
               | |- (match ?x with _ => _ end = _) -> _ => destruct x eqn:?
               end); try discriminate;
@@ -105,8 +109,39 @@ Section Reads.
            first [left; eexists; reflexivity|right; reflexivity]).
     exfalso. apply NM. reflexivity.
   Qed.
+
+  (* the same for a KGetRange (mode MRange a b); the retry may also take the invalid-range
+     exit, decided from the CURRENT item of the key *)
+  Theorem C05_range_result_shape g t ts g' ts' r a b : Reach g ->
+    tget (g_thr g) t = Some ts -> step g t = Some g' -> tget (g_thr g') t = Some ts' ->
+    t_res ts' = t_res ts ++ [r] ->
+    (exists k it, t_pc ts = GOpen k it (MRange a b) \/ t_pc ts = GReread k it (MRange a b) \/
+                  t_pc ts = GOpenL k it (MRange a b)) ->
+    (exists o, r = CBytes o) \/ r = CErr \/ r = CInvalid.
+  Proof using cmp_refl cmp_eq cmp_antisym cmp_trans thr0_nodup cas0_sorted cas0_named NoCollideC.
+    intros R Ht St Ht' Hres (k & it & Hp).
+    pose proof (C05_no_step_reports_missing g t ts g' ts' R Ht St Ht') as NM.
+    revert St. unfold cstep. rewrite Ht.
+    destruct Hp as [Hp|[Hp|Hp]]; rewrite Hp; cbn [pre_open read_result absent_result];
+      repeat (match goal with
+              | |- (match ?x with _ => _ end = _) -> _ => destruct x eqn:?
+              end); try discriminate;
+      intros E; injection E as <-; unfold finish, set_pc in Ht'; cbn [g_thr] in Ht';
+      rewrite tget_tset_same in Ht'; injection Ht' as <-; cbn [t_res] in *;
+      try (exfalso; apply (f_equal (@length cres)) in Hres; rewrite app_length in Hres;
+           cbn [length] in Hres; lia);
+      try (apply app_inv_head in Hres; injection Hres as <-;
+           first [left; eexists; reflexivity|right; left; reflexivity|right; right; reflexivity]).
+    - apply app_inv_head in Hres. injection Hres as <-.
+      match goal with Hx : _ = Some c |- _ => revert Hx end.
+      destruct (isize _ <=? a)%N; [intros Hx; injection Hx as <-; left; eexists; reflexivity|].
+      destruct (N.min b _ <? a)%N; [intros Hx; injection Hx as <-; right; right; reflexivity|].
+      discriminate.
+    - exfalso. apply NM. reflexivity.
+  Qed.
 End Reads.
 
 Print Assumptions C05_no_step_reports_missing.
 Print Assumptions C05_retry_is_one_round.
 Print Assumptions C05_get_result_shape.
+Print Assumptions C05_range_result_shape.
